@@ -352,6 +352,10 @@ func harnessAPI(e *Exec, g *G, fn *ssa.Function, args []Value) (Value, bool) {
 			e.Covered[lbl]++
 		}
 		return nil, true
+	case "containsEq":
+		return tt.Contains(args[0].(*Term), tt.Str("=")), true
+	case "verifReach":
+		return nil, true
 	case "symbolicMode":
 		return tt.True, true
 	case "heldByMe":
